@@ -143,6 +143,9 @@ def main(argv_tier=None, replay_path=None):
         if rp["history"][:1] == ["commands.py"]:
             import c09_cli
             ev = c09_cli.run_cli(rp["scheme"], rp.get("cli_k") or 0)
+        elif rp["history"][:1] == ["run_client.py"]:
+            import c09_proc
+            ev = c09_proc.run_proc(rp["scheme"], rp.get("cli_k") or 0)
         else:
             ev = replay(fx, rp["scheme"], rp["history"], 0)
         verdicts, _ = validate_traces("Trace_ClientSM", [{"tid": "replay", "ev": ev}])
@@ -179,6 +182,16 @@ def main(argv_tier=None, replay_path=None):
     cevs = pmap(lambda a: c09_cli.run_cli(a[1][0], a[0] * 7 + a[1][1]), list(enumerate(cli_cases)), nproc=8)
     for (i, (s, j)), ev in zip(enumerate(cli_cases), cevs):
         traces.append({"tid": "cli%d" % i, "ev": ev, "scheme": s, "history": ["commands.py"] + [e["op"] for e in ev], "cli_k": i * 7 + j})
+    # ---- process level: run_server.py and one run_client.py process per step, the server killed and restarted (c09_proc)
+    import c09_proc
+    if tr == "quick":
+        off = seed() % len(sc.SCHEMES)
+        proc_cases = [(sc.SCHEMES[(off + 4 * j) % len(sc.SCHEMES)], j) for j in range(3)]
+    else:
+        proc_cases = [(s, j) for s in sc.SCHEMES for j in range(3)]
+    pevs = pmap(lambda a: c09_proc.run_proc(a[1][0], a[1][1]), list(enumerate(proc_cases)), nproc=6)
+    for (i, (s, j)), ev in zip(enumerate(proc_cases), pevs):
+        traces.append({"tid": "proc%d" % i, "ev": ev, "scheme": s, "history": ["run_client.py"] + [e["op"] for e in ev], "cli_k": j})
     verdicts, agg = validate_traces("Trace_ClientSM", [{"tid": t["tid"], "ev": t["ev"]} for t in traces])
     rej = []
     for t in traces:
@@ -205,6 +218,9 @@ def main(argv_tier=None, replay_path=None):
         "evaluations": len(traces),
         "distinct_nontrivial": len({(t["scheme"], tuple(t["history"])) for t in traces if any(e["op"] == "search" and e["correct"] for e in t["ev"])}),
         "command_level_runs": len(cli_cases),
+        "process_level_runs": {"n": len(proc_cases), "what": "run_server.py + one run_client.py process per step over TCP loopback, real cleanup delay, "
+                               "server SIGKILLed and restarted before the first / third search; judged by Trace_ClientSM",
+                               "cases": ["%s/%d" % c for c in proc_cases]},
         "placements_in_model": len(hists), "placements_per_scheme": per, "schemes": sc.SCHEMES,
         "rule": "placements of client re-creation (any gap) and server restart (gaps after the index upload) over the documented workflow "
                 "with %d searches (present / absent / present), all %d emitted by TLC from MC_Workflow; %s per scheme, nine schemes; "
